@@ -420,6 +420,47 @@ def rule_ordinal_range(ctx: Ctx, clause: str = "C11.10") -> RuleResult:
     return rr
 
 
+def rule_scan_exit_twins(ctx: Ctx, clause: str = "C11.11") -> RuleResult:
+    """calc_string_text_pos (str) and the UTF-8 branch of calc_text_pos (bytes) are the same column search over two
+    representations: inside the scan loop both return exactly when the *next* character would not fit
+    (`width + cols > pref_col`).  An extra or different exit (e.g. `cols >= pref_col`) stops before the zero-width
+    characters that belong to the last fitting cell - and makes str and bytes layouts of one text disagree."""
+    import copy
+
+    p = ctx.p
+    rr = RuleResult("SIB", clause, "the str and the UTF-8 column searches leave their scan loop under the same condition (the next character does not fit)", floor=2)
+
+    def exits(fi, loop):
+        # roles: width = name bound to get_char_width()/get_width(); cols = the name it is added to
+        wn = {n.targets[0].id for n in ast.walk(loop) if isinstance(n, ast.Assign) and isinstance(n.targets[0], ast.Name) and isinstance(n.value, ast.Call) and callee_name(n.value) in ("get_char_width", "get_width")}
+        cn = {n.target.id for n in ast.walk(loop) if isinstance(n, ast.AugAssign) and isinstance(n.target, ast.Name) and isinstance(n.value, ast.Name) and n.value.id in wn}
+        out = []
+        for n in ast.walk(loop):
+            if isinstance(n, ast.If) and any(isinstance(x, ast.Return) for x in n.body):
+                t = copy.deepcopy(n.test)
+                for x in ast.walk(t):
+                    if isinstance(x, ast.Name):
+                        x.id = "WIDTH" if x.id in wn else "COLS" if x.id in cn else "TARGET" if x.id == fi.params[3] else x.id
+                out.append((ast.unparse(t), n))
+        return out
+
+    a = p.func(f"{SU}.calc_string_text_pos")
+    b = p.func(f"{SU}.calc_text_pos")
+    la = [n for n in a.own_nodes() if isinstance(n, (ast.For, ast.While))]
+    lb = [n for n in b.own_nodes() if isinstance(n, (ast.For, ast.While))]
+    if not la or not lb:
+        raise AnalysisError("calc_string_text_pos / calc_text_pos: scan loops not found")
+    ea, eb = exits(a, la[0]), exits(b, lb[0])
+    rr.inst("str scan exits", True, {"exits": [t for t, _ in ea]})
+    rr.inst("utf8 scan exits", True, {"exits": [t for t, _ in eb]})
+    sa, sb = sorted(t for t, _ in ea), sorted(t for t, _ in eb)
+    if sa != sb:
+        odd = next(((t, n, a) for t, n in ea if t not in sb), None) or next(((t, n, b) for t, n in eb if t not in sa), None)
+        t, n, fi = odd
+        rr.add(finding("SIB", fi, n, f"the scan loop of {fi.name} returns under `{t}`, its twin only under {sb if fi is a else sa}: the two column searches stop at different characters (a combining mark after the character that fills the last column ends up on the next line for one representation only)", construct=f"scan exit {t} has no counterpart in the twin"))
+    return rr
+
+
 def run(ctx: Ctx):
     p = ctx.p
     loops = [f.qualname for f in p.modules[SU].functions if any(isinstance(n, ast.While) for n in f.own_nodes())]
@@ -434,12 +475,14 @@ def run(ctx: Ctx):
         rule_dbe_ranges(ctx),
         rule_trim_frame(ctx),
         rule_ordinal_range(ctx),
+        rule_scan_exit_twins(ctx),
     ]
 
 
 _S = "urwid/str_util.py"
 _U = "urwid/util.py"
 MUTANTS = [
+    Mut("str-scan-stops-at-target-column", _S, "calc_string_text_pos", "        width = get_char_width(text[idx])\n", "        if cols >= pref_col:\n            return idx, cols\n        width = get_char_width(text[idx])\n", "SIB|str_util.calc_string_text_pos"),
     Mut("four-byte-form-unbounded", _S, "decode_one", "if 0x10000 <= (o := ((b1 & 0x07) << 18) | ((b2 & 0x3F) << 12) | ((b3 & 0x3F) << 6) | (b4 & 0x3F)) <= 0x10FFFF:", "if (o := ((b1 & 0x07) << 18) | ((b2 & 0x3F) << 12) | ((b3 & 0x3F) << 6) | (b4 & 0x3F)) >= 0x10000:", "RANGE|str_util.decode_one"),
     Mut("twin-four-byte-bound-strict", _S, "decode_one", "<= 0x10FFFF:", "< 0x110000:", twin=True),
     Mut("trim-rescan-from-moved-origin", _U, "calc_trim_text", "spos, sc = str_util.calc_text_pos(text, start_offs, end_offs, start_col + 1)", "spos, sc = str_util.calc_text_pos(text, spos, end_offs, start_col + 1)", "PAIR|util.calc_trim_text"),
